@@ -21,7 +21,9 @@ pub fn streams() -> Vec<Stream> {
     vec![
         Stream { name: "C14.targets", gen: gen_targets, imp: imp_targets, oracle: oracle_targets },
         Stream { name: "C14.check", gen: gen_check, imp: imp_check, oracle: oracle_check },
+        Stream { name: "C14.checkin", gen: gen_checkin, imp: imp_checkin, oracle: oracle_checkin },
         Stream { name: "C14.guard", gen: gen_guard, imp: imp_guard, oracle: oracle_guard },
+        Stream { name: "C14.tick", gen: gen_tick, imp: imp_tick, oracle: oracle_tick },
     ]
 }
 
@@ -241,6 +243,41 @@ fn op_within(fp: &Fp, warp: [u8; 32], is_system: bool, op: &WarpOp) -> Result<bo
         && t.attachments.iter().all(|a| fp.a_write.contains(a)))
 }
 
+/// The previous source of an edge that `op` moves in `store` (real `moved_edge_previous_source`).
+fn moved_prev(store: Option<&GraphStore>, op: &WarpOp) -> Result<Option<[u8; 32]>, String> {
+    match store {
+        None => Ok(None),
+        Some(g) => Ok(ghook::moved_edge_previous_source(g, op).ok_or("enforcement compiled out")?.map(|n| n.0)),
+    }
+}
+
+/// Own evaluation (no guard code): the source under which `op`'s edge id is stored, if it differs.
+fn moved_prev_direct(store: Option<&GraphStore>, op: &WarpOp) -> Option<[u8; 32]> {
+    let g = store?;
+    if let WarpOp::UpsertEdge { warp_id, record } = op {
+        if *warp_id != g.warp_id() {
+            return None;
+        }
+        for (from, es) in g.iter_edges() {
+            if es.iter().any(|e| e.id == record.id) && *from != record.from {
+                return Some(from.0);
+            }
+        }
+    }
+    None
+}
+
+/// `op_within` plus the state-dependent target: the old source of a moved edge must be declared too.
+fn op_within_in(fp: &Fp, warp: [u8; 32], is_system: bool, op: &WarpOp, store: Option<&GraphStore>) -> Result<bool, String> {
+    if !op_within(fp, warp, is_system, op)? {
+        return Ok(false);
+    }
+    Ok(match moved_prev_direct(store, op) {
+        Some(old) => fp.n_write.contains(&(warp, old)),
+        None => true,
+    })
+}
+
 fn fp_single_warp(fp: &Fp, warp: [u8; 32]) -> bool {
     fp.n_read.iter().chain(&fp.n_write).chain(&fp.e_read).chain(&fp.e_write).all(|(w, _)| *w == warp)
         && fp.a_read.iter().chain(&fp.a_write).all(|k| key_warp(k) == warp)
@@ -412,6 +449,9 @@ fn imp_targets(t: &mut Toks) -> Result<String, String> {
         return Err("trailing tokens".into());
     }
     let mut out = targets_line(&op)?;
+    let op_warp = ghook::op_write_targets(&op).and_then(|t| t.op_warp);
+    let moved = moved_prev(op_warp.and_then(|w| a.store(&w)), &op)?;
+    out.push_str(&format!(" moved {}", moved.map_or_else(|| "-".to_string(), |n| hex(&n))));
     let mut b = a.clone();
     match hook::apply_ops(&mut b, std::slice::from_ref(&op)) {
         Err(e) => out.push_str(&format!(" ; err {}", err_class(&e))),
@@ -443,9 +483,20 @@ fn oracle_targets(t: &mut Toks, _tier: Tier) -> Result<OracleOut, String> {
             if rep.is_some() {
                 o.tags.push("reparent".into());
             }
+            let moved = moved_prev(tg.op_warp.and_then(|w| a.store(&w)), &op)?;
+            if moved.is_some() != rep.is_some() {
+                o.fails.push((
+                    "C14.moved-target-wrong".into(),
+                    format!("moved_edge_previous_source = {:?} but the edge is stored under {:?}", moved.map(|n| hex(&n)), rep.map(|r| hex(&r.1))),
+                ));
+            }
             for l in &ch {
                 o.tags.push(format!("changed:{}", l.kind()));
-                if !loc_covered_by_targets(&tg, &op, l) {
+                let by_moved = matches!((l, moved, tg.op_warp), (Loc::Adj(w, n), Some(m), Some(ow)) if *w == ow.0 && *n == m);
+                if by_moved {
+                    o.tags.push("covered-by-moved-target".into());
+                }
+                if !by_moved && !loc_covered_by_targets(&tg, &op, l) {
                     let key = match (rep, l) {
                         (Some((w, old)), Loc::Adj(lw, ln)) if *lw == w && *ln == old => {
                             "C14.targets-miss.upsert-edge-reparent-old-from".to_string()
@@ -621,6 +672,141 @@ fn oracle_check(t: &mut Toks, _tier: Tier) -> Result<OracleOut, String> {
         )),
     }
     Ok(o)
+}
+
+// ====================================================================== C14.checkin  <state> <warp> <sys> <fp> OP op
+// the check `execute_item_enforced` runs on every emitted op: `check_op_in(store of the guard's warp, op)`
+
+fn parse_checkin(t: &mut Toks) -> Result<(WarpState, [u8; 32], bool, Fp, WarpOp), String> {
+    let st = parse_state(t)?;
+    let warp = t.id()?;
+    let sys = t.num()? != 0;
+    let fp = parse_fp(t)?;
+    if t.next()? != "OP" {
+        return Err("expected OP".into());
+    }
+    let op = parse_op(t)?;
+    if !t.done() {
+        return Err("trailing tokens".into());
+    }
+    Ok((st, warp, sys, fp, op))
+}
+
+fn run_checkin(st: &WarpState, warp: [u8; 32], sys: bool, fp: &Fp, op: &WarpOp) -> Result<Option<Option<FootprintViolation>>, String> {
+    let Some(store) = st.store(&WarpId(warp)) else { return Ok(None) };
+    ghook::check_op_in(&fp.to_real(), store, sys, op).map(Some)
+}
+
+fn imp_checkin(t: &mut Toks) -> Result<String, String> {
+    let (st, warp, sys, fp, op) = parse_checkin(t)?;
+    Ok(match run_checkin(&st, warp, sys, &fp, &op) {
+        Ok(None) => "missing-store".to_string(),
+        Ok(Some(None)) => "ok".to_string(),
+        Ok(Some(Some(v))) => violation_str(&v),
+        Err(e) if e == "guard-construction-panic" => "guard-panic".to_string(),
+        Err(e) => return Err(e),
+    })
+}
+
+fn oracle_checkin(t: &mut Toks, _tier: Tier) -> Result<OracleOut, String> {
+    let (st, warp, sys, fp, op) = parse_checkin(t)?;
+    let mut o = OracleOut::default();
+    if !fp_single_warp(&fp, warp) {
+        o.tags.push("cross-warp-footprint".into());
+        return Ok(o);
+    }
+    let store = st.store(&WarpId(warp));
+    let Some(res) = run_checkin(&st, warp, sys, &fp, &op)? else {
+        o.tags.push("missing-store".into());
+        return Ok(o);
+    };
+    let moved = moved_prev_direct(store, &op);
+    let honest = op_within_in(&fp, warp, sys, &op, store)?;
+    o.nontrivial = true;
+    o.tags.push(format!("op:{}", op_tag(&op)));
+    if moved.is_some() {
+        o.tags.push(if honest { "move-declared".into() } else { "move".into() });
+    }
+    match (&res, honest) {
+        (None, true) => o.tags.push("honest-accepted".into()),
+        (Some(v), false) => o.tags.push(format!("flagged:{}", kind_str(&v.kind).split(' ').next().unwrap_or(""))),
+        (Some(v), true) => o.fails.push((
+            "C14.honest-flagged.single-op".into(),
+            format!("an op inside the declared footprint (incl. the old source of a moved edge) was flagged: {}", violation_str(v)),
+        )),
+        (None, false) => {
+            let key = if moved.is_some() && op_within(&fp, warp, sys, &op)? {
+                "C14.targets-miss.upsert-edge-reparent-old-from.accepted".to_string()
+            } else {
+                format!("C14.undeclared-accepted.{}", op_tag(&op))
+            };
+            o.fails.push((key, "an op outside the declared footprint was accepted by check_op_in".into()));
+        }
+    }
+    // the accepted op, applied to the state the guard saw, changes only declared locations
+    if res.is_none() {
+        let mut b = st.clone();
+        if hook::apply_ops(&mut b, std::slice::from_ref(&op)).is_ok() {
+            for l in changed_locs(&st, &b) {
+                let declared = match &l {
+                    Loc::Node(w, i) | Loc::Adj(w, i) => fp.n_write.contains(&(*w, *i)),
+                    Loc::Edge(w, e) => fp.e_write.contains(&(*w, *e)),
+                    Loc::NAtt(w, i) => fp.a_write.contains(&AttachmentKey::node_alpha(NodeKey { warp_id: WarpId(*w), local_id: NodeId(*i) })),
+                    Loc::EAtt(w, e) => fp.a_write.contains(&AttachmentKey::edge_beta(EdgeKey { warp_id: WarpId(*w), local_id: EdgeId(*e) })),
+                } || (sys && inst_warps(&op).contains(&l.warp()));
+                if !declared {
+                    o.fails.push((
+                        format!("C14.accepted-op-undeclared-change.{}", l.kind()),
+                        format!("check_op_in accepted the op but applying it changed [{}], which the footprint does not declare as a write", l.str()),
+                    ));
+                }
+            }
+        }
+    }
+    o.tags.sort();
+    o.tags.dedup();
+    Ok(o)
+}
+
+fn gen_checkin(rng: &mut Rng, tier: Tier) -> Vec<String> {
+    let n = if tier == Tier::Thorough { 12000 } else { 1500 };
+    let mut out = Vec::new();
+    for case in 0..n {
+        let st = gen_state(rng, 4, 4, case % 4 == 0);
+        let warp = if rng.chance(1, 30) { 0xEE } else { 0xA1u64 };
+        let empty = GWarp::default();
+        let gw = st.warps.get(&warp).unwrap_or(&empty);
+        // declared sets: each id of the tiny universe with p = 2/3 (so that "only the old source is missing" is frequent)
+        let sub = |rng: &mut Rng, base: u64, hi: u64| -> Vec<(u64, u64)> { (1..=hi).filter(|_| rng.chance(2, 3)).map(|i| (warp, base + i)).collect() };
+        let (nr, nw, er, ew) = (sub(rng, 0, 4), sub(rng, 0, 4), sub(rng, 0x20, 4), sub(rng, 0x20, 4));
+        let mut ksets: Vec<Vec<String>> = Vec::new();
+        for _ in 0..2 {
+            let mut v = Vec::new();
+            for i in 1..=4 {
+                if rng.chance(2, 3) {
+                    v.push(key_line("na", warp, i));
+                }
+                if rng.chance(2, 3) {
+                    v.push(key_line("eb", warp, 0x20 + i));
+                }
+            }
+            ksets.push(v);
+        }
+        let fp = fp_line(&nr, &nw, &er, &ew, &ksets[0], &ksets[1]);
+        let sys = u8::from(rng.chance(1, 4));
+        let eids: Vec<u64> = gw.edges.keys().copied().collect();
+        let op = if !eids.is_empty() && rng.chance(3, 5) {
+            // upsert of an existing edge: same source, or MOVED to another source (old source declared or not)
+            let e = *rng.pick(&eids);
+            let from = if rng.chance(1, 4) { gw.edges[&e].0 } else { rng.range(1, 4) };
+            let ow = if rng.chance(1, 12) { 0xA2 } else { warp };
+            format!("UE {} {} {} {} {}", sid(ow), sid(e), sid(from), sid(rng.range(1, 4)), sid(0x30 + rng.below(2)))
+        } else {
+            gen_op_for(rng, &st)
+        };
+        out.push(format!("{} {} {sys} {fp} OP {op}", st.dump(), sid(warp)));
+    }
+    out
 }
 
 fn key_line(tag: &str, w: u64, i: u64) -> String {
@@ -907,7 +1093,7 @@ fn item_honest(it: &Item, st: &WarpState) -> Result<bool, String> {
                 }
             }
             Instr::Emit(op) => {
-                if !op_within(&it.fp, it.warp, it.system, op)? {
+                if !op_within_in(&it.fp, it.warp, it.system, op, Some(store))? {
                     return Ok(false);
                 }
             }
@@ -915,7 +1101,7 @@ fn item_honest(it: &Item, st: &WarpState) -> Result<bool, String> {
                 if !c.declared(&it.fp, it.warp) {
                     return Ok(false);
                 }
-                if c.perform(view) && !op_within(&it.fp, it.warp, it.system, op)? {
+                if c.perform(view) && !op_within_in(&it.fp, it.warp, it.system, op, Some(store))? {
                     return Ok(false);
                 }
             }
@@ -937,7 +1123,7 @@ fn undeclared_write_before_halt(it: &Item, st: &WarpState) -> Result<bool, Strin
                 }
             }
             Instr::Emit(op) => {
-                if !op_within(&it.fp, it.warp, it.system, op)? {
+                if !op_within_in(&it.fp, it.warp, it.system, op, Some(store))? {
                     return Ok(true);
                 }
             }
@@ -945,7 +1131,7 @@ fn undeclared_write_before_halt(it: &Item, st: &WarpState) -> Result<bool, Strin
                 if !c.declared(&it.fp, it.warp) {
                     return Ok(false);
                 }
-                if c.perform(view) && !op_within(&it.fp, it.warp, it.system, op)? {
+                if c.perform(view) && !op_within_in(&it.fp, it.warp, it.system, op, Some(store))? {
                     return Ok(true);
                 }
             }
@@ -1075,6 +1261,8 @@ struct GItem {
     prog: Vec<String>,
     /// a fresh node id private to this item
     own_node: u64,
+    /// old sources of edges the item's upserts move (declared in `nw`)
+    moved_old: Vec<u64>,
 }
 
 impl GItem {
@@ -1101,7 +1289,7 @@ fn push_uniq<T: PartialEq>(v: &mut Vec<T>, x: T) {
 /// what the program reads and what the real table attributes to the ops it may emit. Ops are chosen
 /// so that they mostly apply to the pre-state (the tick should commit when nobody misbehaves).
 fn gen_honest_item(rng: &mut Rng, st: &GState, w: u64, nodes: &[u64], edges: &[u64], scope: String, system: bool) -> GItem {
-    let mut it = GItem { system, warp: w, scope, nr: vec![], nw: vec![], er: vec![], ew: vec![], ar: vec![], aw: vec![], prog: vec![], own_node: *nodes.last().unwrap_or(&1) };
+    let mut it = GItem { system, warp: w, scope, nr: vec![], nw: vec![], er: vec![], ew: vec![], ar: vec![], aw: vec![], prog: vec![], own_node: *nodes.last().unwrap_or(&1), moved_old: vec![] };
     let gw = &st.warps[&w];
     let portal = |a: Option<&GAtt>| matches!(a, Some(GAtt::Descend(_)));
     let live_nodes: Vec<u64> = nodes.iter().copied().filter(|n| gw.nodes.contains_key(n)).collect();
@@ -1158,9 +1346,18 @@ fn gen_honest_item(rng: &mut Rng, st: &GState, w: u64, nodes: &[u64], edges: &[u
             }
             7 | 8 => {
                 // upsert an own edge from an own node (may re-parent an existing edge: known finding)
-                if used.insert(format!("e{e}")) {
+                let old_from = gw.edges.get(&e).map(|x| x.0);
+                let foreign = old_from.is_some_and(|f| !nodes.contains(&f));
+                if !foreign && used.insert(format!("e{e}")) {
                     push_uniq(&mut it.nw, (w, n));
                     push_uniq(&mut it.ew, (w, e));
+                    if let Some(f) = old_from {
+                        if f != n {
+                            // the upsert MOVES the edge: its old source is a write target too
+                            push_uniq(&mut it.nw, (w, f));
+                            it.moved_old.push(f);
+                        }
+                    }
                     let to = *rng.pick(nodes);
                     let op = format!("UE {} {} {} {} {}", sid(w), sid(e), sid(n), sid(to), sid(0x30 + rng.below(2)));
                     emit(&mut it, rng, op);
@@ -1354,6 +1551,12 @@ fn make_dishonest(rng: &mut Rng, it: &mut GItem, foreign_node: u64, foreign_edge
                 it.prog.insert(pos, "PANIC".to_string());
                 return "executor-panic";
             }
+            13 if !it.moved_old.is_empty() => {
+                // omit exactly the old source of a moved edge (when nothing else of the item needs it)
+                let f = it.moved_old[rng.below(it.moved_old.len() as u64) as usize];
+                it.nw.retain(|x| *x != (w, f));
+                return "drop-moved-old-source";
+            }
             11 => {
                 // undeclared write, then a panic: FootprintViolationWithPanic
                 it.prog.insert(pos, "PANIC".to_string());
@@ -1406,6 +1609,485 @@ fn gen_guard(rng: &mut Rng, tier: Tier) -> Vec<String> {
         }
         rng.shuffle(&mut items);
         let mut line = format!("{workers} {} {k}", st.dump());
+        for it in &items {
+            line.push(' ');
+            line.push_str(&it.line());
+        }
+        out.push(line);
+    }
+    out
+}
+
+// ====================================================================== C14.tick  <workers> <state> <k> item…
+// Engine level, systematic: real `Engine::apply_in_warp` + `commit_with_receipt` ticks whose rewrites are
+// scoped at REAL nodes spread over shards (work units), read their own scope node, and whose footprint
+// omits EXACTLY ONE access the program performs (every read accessor, every target of every op kind,
+// the scope node itself, the old source of a moved edge), or which write into another instance /
+// emit an instance-level op. The violator index, the shard layout and the worker count are enumerated.
+// Output: the violation, or `ok changed …` = the locations the committed tick changed.
+
+fn imp_tick(t: &mut Toks) -> Result<String, String> {
+    let c = parse_guard(t)?;
+    let r = run_guard(&c)?;
+    Ok(match r.outcome {
+        Outcome::Committed => {
+            let ch = changed_locs(&r.pre, &r.post);
+            let mut out = format!("ok changed {}", ch.len());
+            for l in ch {
+                out.push(' ');
+                out.push_str(&l.str());
+            }
+            out
+        }
+        Outcome::CommitErr(_) => "ok commit-err".to_string(),
+        Outcome::Violation(v, with_panic) => format!("{}{}", violation_str(&v), if with_panic { " with-panic" } else { "" }),
+        Outcome::Panicked(m) => {
+            if m == "verif-interpreter-panic" {
+                "panic".to_string()
+            } else {
+                format!("panic-other {}", m.replace(' ', "_").chars().take(80).collect::<String>())
+            }
+        }
+    })
+}
+
+/// The first access of the item that leaves the DECLARED footprint, named for the finding key.
+fn first_undeclared(it: &Item, st: &WarpState) -> Result<Option<String>, String> {
+    let store = st.store(&WarpId(it.warp)).ok_or("item warp missing")?;
+    let view = GraphView::new(store);
+    let rd_name = |r: &Rd| -> String {
+        let (tag, id) = match r {
+            Rd::Node(i) => ("node", i),
+            Rd::Adj(i) => ("edges_from", i),
+            Rd::NodeAtt(i) => ("node_attachment", i),
+            Rd::EdgeAtt(i) => ("edge_attachment", i),
+            Rd::HasEdge(i) => ("has_edge", i),
+        };
+        format!("read.{tag}{}", if *id == it.scope { ".scope-node" } else { "" })
+    };
+    let op_name = |op: &WarpOp| -> Result<String, String> {
+        let t = ghook::op_write_targets(op).ok_or("enforcement compiled out")?;
+        let why = if t.is_instance_op && !it.system {
+            "instance-op-by-user-rule"
+        } else if t.op_warp.map(|w| w.0) != Some(it.warp) {
+            "cross-warp"
+        } else if !op_within(&it.fp, it.warp, it.system, op)? {
+            "target"
+        } else {
+            "moved-old-source"
+        };
+        Ok(format!("write.{}.{why}", op_tag(op)))
+    };
+    for ins in &it.prog {
+        match ins {
+            Instr::Read(r) => {
+                if !r.declared(&it.fp, it.warp) {
+                    return Ok(Some(rd_name(r)));
+                }
+            }
+            Instr::Emit(op) => {
+                if !op_within_in(&it.fp, it.warp, it.system, op, Some(store))? {
+                    return Ok(Some(op_name(op)?));
+                }
+            }
+            Instr::EmitIf(c, op) => {
+                if !c.declared(&it.fp, it.warp) {
+                    return Ok(Some(rd_name(c)));
+                }
+                if c.perform(view) && !op_within_in(&it.fp, it.warp, it.system, op, Some(store))? {
+                    return Ok(Some(op_name(op)?));
+                }
+            }
+            Instr::Panic => return Ok(Some("executor-panic".into())),
+        }
+    }
+    Ok(None)
+}
+
+fn oracle_tick(t: &mut Toks, _tier: Tier) -> Result<OracleOut, String> {
+    let c = parse_guard(t)?;
+    let mut o = OracleOut::default();
+    let r = run_guard(&c)?;
+    let mut bad: Vec<(usize, String)> = Vec::new();
+    for (ix, it) in c.items.iter().enumerate() {
+        if let Some(w) = first_undeclared(it, &c.state)? {
+            bad.push((ix, w));
+        }
+    }
+    o.nontrivial = true;
+    o.tags.push(format!("items:{}", c.items.len()));
+    o.tags.push(format!("workers:{}", c.workers));
+    let units: BTreeSet<([u8; 32], u8)> = c.items.iter().map(|it| (it.warp, it.scope[0])).collect();
+    o.tags.push(format!("units:{}", units.len()));
+    for (ix, w) in &bad {
+        o.tags.push(format!("omit:{w}"));
+        o.tags.push(format!("violator-at:{ix}/{}", c.items.len()));
+        o.tags.push(format!("violator-shard:{}", c.items[*ix].scope[0]));
+    }
+    let same = state_str(&r.pre) == state_str(&r.post) && observe(&r.pre) == observe(&r.post);
+    match &r.outcome {
+        Outcome::Committed | Outcome::CommitErr(_) => {
+            for (_, w) in &bad {
+                o.fails.push((
+                    format!("C14.tick.not-flagged.{w}"),
+                    format!("a rewrite performed an access outside its declared footprint ({w}) and the tick was not failed by enforcement"),
+                ));
+            }
+            if matches!(r.outcome, Outcome::Committed) {
+                o.tags.push("committed".into());
+                for l in &changed_locs(&r.pre, &r.post) {
+                    let declared = c.items.iter().any(|it| match l {
+                        Loc::Node(w, i) | Loc::Adj(w, i) => it.fp.n_write.contains(&(*w, *i)),
+                        Loc::Edge(w, e) => it.fp.e_write.contains(&(*w, *e)),
+                        Loc::NAtt(w, i) => it.fp.a_write.contains(&AttachmentKey::node_alpha(NodeKey { warp_id: WarpId(*w), local_id: NodeId(*i) })),
+                        Loc::EAtt(w, e) => it.fp.a_write.contains(&AttachmentKey::edge_beta(EdgeKey { warp_id: WarpId(*w), local_id: EdgeId(*e) })),
+                    }) || c.items.iter().any(|it| {
+                        it.system
+                            && it.prog.iter().any(|ins| match ins {
+                                Instr::Emit(op) | Instr::EmitIf(_, op) => inst_warps(op).contains(&l.warp()),
+                                _ => false,
+                            })
+                    });
+                    if !declared {
+                        o.fails.push((
+                            format!("C14.tick.commit-undeclared-change.{}", l.kind()),
+                            format!("the committed tick changed [{}] which no admitted rewrite declared as a write", l.str()),
+                        ));
+                    }
+                }
+            } else {
+                o.tags.push("commit-err".into());
+            }
+        }
+        Outcome::Violation(v, wp) => {
+            o.tags.push(format!("flagged:{}", kind_str(&v.kind).split(' ').next().unwrap_or("")));
+            if *wp {
+                o.tags.push("with-panic".into());
+            }
+            if bad.is_empty() {
+                o.fails.push((
+                    "C14.tick.honest-flagged".into(),
+                    format!("every rewrite stayed inside its declaration but the tick was flagged: {}", violation_str(v)),
+                ));
+            }
+            if !same {
+                o.fails.push(("C14.tick.violation-partially-visible".into(), "Engine::state() after the failed commit differs from the pre-state".into()));
+            }
+        }
+        Outcome::Panicked(m) => {
+            o.tags.push("executor-panic".into());
+            for it in &c.items {
+                if undeclared_write_before_halt(it, &c.state)? {
+                    o.fails.push(("C14.tick.write-violation-masked-by-panic".into(), "an op outside the declared writes was emitted before the executor panicked, but the tick failed with the executor's payload only".into()));
+                }
+            }
+            if m != "verif-interpreter-panic" {
+                o.fails.push(("C14.tick.unexpected-panic".into(), format!("commit panicked with a foreign payload: {m}")));
+            }
+            if !same {
+                o.fails.push(("C14.tick.violation-partially-visible".into(), "Engine::state() after the failed commit differs from the pre-state".into()));
+            }
+        }
+    }
+    o.tags.sort();
+    o.tags.dedup();
+    Ok(o)
+}
+
+// ---------------------------------------------------------------------- systematic generator
+
+fn xid(b0: u8, b30: u8, b31: u8) -> String {
+    let mut b = [0u8; 32];
+    b[0] = b0;
+    b[30] = b30;
+    b[31] = b31;
+    hex(&b)
+}
+
+/// One item's private pool in warp `w`: scope S (shard = first byte), N2, N3 (isolated), N4, edges
+/// E1 = S→N2 (β atom), E2 = N4→N2, E3 (absent).
+struct Pool {
+    w: u64,
+    s: String,
+    n2: String,
+    n3: String,
+    n4: String,
+    e1: String,
+    e2: String,
+    e3: String,
+}
+
+fn pool(w: u64, shard: u8, i: u8) -> Pool {
+    let b = 0x10 * (i + 1);
+    Pool {
+        w,
+        s: xid(shard, 0, b),
+        n2: xid(shard, 0, b + 1),
+        n3: xid(shard, 0, b + 2),
+        n4: xid(shard, 0, b + 3),
+        e1: xid(0, 2, b + 1),
+        e2: xid(0, 2, b + 2),
+        e3: xid(0, 2, b + 3),
+    }
+}
+
+#[derive(Clone, Default)]
+struct TFp {
+    nr: Vec<String>,
+    nw: Vec<String>,
+    er: Vec<String>,
+    ew: Vec<String>,
+    ar: Vec<String>, // "na <id>" / "eb <id>" (warp added when printed)
+    aw: Vec<String>,
+}
+
+impl TFp {
+    fn line(&self, w: u64) -> String {
+        let pairs = |kw: &str, v: &[String]| {
+            let mut s = format!(" {kw} {}", v.len());
+            for i in v {
+                s.push_str(&format!(" {} {i}", sid(w)));
+            }
+            s
+        };
+        let keys = |kw: &str, v: &[String]| {
+            let mut s = format!(" {kw} {}", v.len());
+            for k in v {
+                let (tag, id) = k.split_once(' ').unwrap_or(("na", ""));
+                s.push_str(&format!(" {tag} {} {id}", sid(w)));
+            }
+            s
+        };
+        format!("fp{}{}{}{}{}{}", pairs("nr", &self.nr), pairs("nw", &self.nw), pairs("er", &self.er), pairs("ew", &self.ew), keys("ar", &self.ar), keys("aw", &self.aw))
+    }
+    fn entries(&self) -> usize {
+        self.nr.len() + self.nw.len() + self.er.len() + self.ew.len() + self.ar.len() + self.aw.len()
+    }
+    /// removes the `ix`-th declared entry (over the six sets in order); returns its description
+    fn omit(&mut self, mut ix: usize) -> String {
+        for (name, v) in [("n_read", &mut self.nr), ("n_write", &mut self.nw), ("e_read", &mut self.er), ("e_write", &mut self.ew), ("a_read", &mut self.ar), ("a_write", &mut self.aw)] {
+            if ix < v.len() {
+                v.remove(ix);
+                return name.to_string();
+            }
+            ix -= v.len();
+        }
+        "none".into()
+    }
+}
+
+struct TItem {
+    system: bool,
+    p: Pool,
+    fp: TFp,
+    prog: Vec<String>,
+}
+
+impl TItem {
+    fn line(&self) -> String {
+        format!("{} {} {} {} {} {}", if self.system { "S" } else { "U" }, sid(self.p.w), self.p.s, self.fp.line(self.p.w), self.prog.len(), self.prog.join(" "))
+    }
+}
+
+/// An honest item: every declared entry is needed by some access of the program, and the program
+/// always reads its own scope node.
+fn tick_item(rng: &mut Rng, p: Pool, system: bool, full: bool) -> TItem {
+    let w = sid(p.w);
+    let mut fp = TFp::default();
+    let mut prog: Vec<String> = Vec::new();
+    let take = |rng: &mut Rng| full || rng.chance(1, 2);
+    // the scope node itself: record, adjacency, attachment
+    match if full { 3 } else { rng.below(4) } {
+        0 => prog.push(format!("RN {}", p.s)),
+        1 => prog.push(format!("RA {}", p.s)),
+        2 => prog.push(format!("EI N {} UN {w} {} {}", p.s, p.n2, sid(0x12))),
+        _ => {
+            prog.push(format!("RN {}", p.s));
+            prog.push(format!("RA {}", p.s));
+        }
+    }
+    push_uniq(&mut fp.nr, p.s.clone());
+    if prog.iter().any(|x| x.starts_with("EI")) {
+        push_uniq(&mut fp.nw, p.n2.clone());
+    }
+    if take(rng) {
+        prog.push(format!("RNA {}", p.s));
+        push_uniq(&mut fp.ar, format!("na {}", p.s));
+    }
+    if take(rng) {
+        prog.push(format!("HE {}", p.e1));
+        push_uniq(&mut fp.er, p.e1.clone());
+    }
+    if take(rng) {
+        prog.push(format!("REA {}", p.e1));
+        push_uniq(&mut fp.ar, format!("eb {}", p.e1));
+    }
+    if take(rng) {
+        prog.push(format!("RA {}", p.n4));
+        push_uniq(&mut fp.nr, p.n4.clone());
+    }
+    if take(rng) {
+        prog.push(format!("EM UN {w} {} {}", p.n2, sid(0x12)));
+        push_uniq(&mut fp.nw, p.n2.clone());
+    }
+    if take(rng) {
+        prog.push(format!("EM SA na {w} {} a {} 01ff", p.n2, sid(0x70)));
+        push_uniq(&mut fp.aw, format!("na {}", p.n2));
+    }
+    if take(rng) {
+        // fresh edge S -> N2
+        prog.push(format!("EM UE {w} {} {} {} {}", p.e3, p.s, p.n2, sid(0x30)));
+        push_uniq(&mut fp.nw, p.s.clone());
+        push_uniq(&mut fp.ew, p.e3.clone());
+    }
+    if take(rng) {
+        // MOVE E2 from N4 to S: the old source N4 is a write target too
+        prog.push(format!("EM UE {w} {} {} {} {}", p.e2, p.s, p.n2, sid(0x31)));
+        push_uniq(&mut fp.nw, p.s.clone());
+        push_uniq(&mut fp.nw, p.n4.clone());
+        push_uniq(&mut fp.ew, p.e2.clone());
+    } else if take(rng) {
+        prog.push(format!("EM SA eb {w} {} a {} 02", p.e2, sid(0x71)));
+        push_uniq(&mut fp.aw, format!("eb {}", p.e2));
+    }
+    if take(rng) {
+        prog.push(format!("EM DE {w} {} {}", p.s, p.e1));
+        push_uniq(&mut fp.nw, p.s.clone());
+        push_uniq(&mut fp.ew, p.e1.clone());
+        push_uniq(&mut fp.aw, format!("eb {}", p.e1));
+    }
+    if system && take(rng) {
+        // instance-level op by a system rule: portal on N3's α slot to a fresh child instance
+        let child = 0xC0 + u64::from(u8::from_str_radix(&p.s[62..64], 16).unwrap_or(0) >> 4);
+        prog.push(format!("EM OP na {w} {} {} {} E {}", p.n3, sid(child), sid(1), sid(0x10)));
+        push_uniq(&mut fp.aw, format!("na {}", p.n3));
+    } else if take(rng) {
+        prog.push(format!("EM DN {w} {}", p.n3));
+        push_uniq(&mut fp.nw, p.n3.clone());
+        push_uniq(&mut fp.aw, format!("na {}", p.n3));
+    }
+    TItem { system, p, fp, prog }
+}
+
+fn tick_state(items: &[TItem], with_child: bool) -> String {
+    // warps 0xA1 (root, root node 00..01) and optionally 0xA2 hanging off node 00..02 of 0xA1
+    let mut out = format!("warps {}", if with_child { 2 } else { 1 });
+    for wid in [0xA1u64, 0xA2] {
+        if wid == 0xA2 && !with_child {
+            continue;
+        }
+        let parent = if wid == 0xA1 { "-".to_string() } else { format!("na {} {}", sid(0xA1), sid(2)) };
+        let mut nodes: Vec<(String, String)> = vec![(sid(1), sid(0x10))];
+        let mut natts: Vec<(String, String)> = Vec::new();
+        let mut edges: Vec<(String, String)> = Vec::new();
+        let mut eatts: Vec<(String, String)> = Vec::new();
+        if wid == 0xA1 && with_child {
+            nodes.push((sid(2), sid(0x10)));
+            natts.push((sid(2), format!("d {}", sid(0xA2))));
+        }
+        for it in items.iter().filter(|it| it.p.w == wid) {
+            let p = &it.p;
+            for n in [&p.s, &p.n2, &p.n3, &p.n4] {
+                nodes.push((n.clone(), sid(0x10)));
+            }
+            natts.push((p.s.clone(), format!("a {} 07", sid(0x70))));
+            natts.push((p.n3.clone(), format!("a {} -", sid(0x70))));
+            edges.push((p.e1.clone(), format!("{} {} {}", p.s, p.n2, sid(0x30))));
+            edges.push((p.e2.clone(), format!("{} {} {}", p.n4, p.n2, sid(0x30))));
+            eatts.push((p.e1.clone(), format!("a {} 09", sid(0x71))));
+        }
+        nodes.sort();
+        natts.sort();
+        edges.sort();
+        eatts.sort();
+        out.push_str(&format!(" {} {} {parent}", sid(wid), sid(1)));
+        for (kw, v) in [("nodes", &nodes), ("natts", &natts), ("edges", &edges), ("eatts", &eatts)] {
+            out.push_str(&format!(" {kw} {}", v.len()));
+            for (a, b) in v {
+                out.push_str(&format!(" {a} {b}"));
+            }
+        }
+    }
+    out
+}
+
+fn gen_tick(rng: &mut Rng, tier: Tier) -> Vec<String> {
+    let n = if tier == Tier::Thorough { 6000 } else { 900 };
+    let mut out = Vec::new();
+    for case in 0..n {
+        let k = 1 + (case % 5) as usize;
+        let workers = 1 + (case / 5) % 4;
+        let with_child = (case / 20) % 3 == 2;
+        let layout = (case / 60) % 3; // 0: all items in one shard (one unit), 1: one shard each, 2: random of 3 shards
+        let mut items: Vec<TItem> = Vec::new();
+        for i in 0..k {
+            let shard = match layout {
+                0 => 7,
+                1 => (i as u8) * 37 + 1,
+                _ => [0u8, 1, 200][rng.below(3) as usize],
+            };
+            let w = if with_child && rng.chance(1, 3) { 0xA2 } else { 0xA1 };
+            let system = rng.chance(1, 5);
+            let full = rng.chance(1, 3);
+            items.push(tick_item(rng, pool(w, shard, i as u8), system, full));
+        }
+        let state = tick_state(&items, with_child);
+        // three of four cases have exactly one violator; its index is enumerated
+        if case % 4 != 3 {
+            let bad = (case / 4) % k;
+            let other_w = if items[bad].p.w == 0xA1 { if with_child { 0xA2 } else { 0xAF } } else { 0xA1 };
+            let it = &mut items[bad];
+            let (w, ow) = (sid(it.p.w), sid(other_w));
+            let pos = rng.below(it.prog.len() as u64 + 1) as usize;
+            let mode = rng.below(10);
+            if mode < 6 {
+                // omit exactly one declared entry (enumerated over the item's entries)
+                let ix = (case / 7) % it.fp.entries().max(1);
+                let _ = it.fp.omit(ix);
+            } else if mode == 6 {
+                // an undeclared extra read, every accessor; target: the root node / a foreign pool's edge
+                let r = match rng.below(5) {
+                    0 => format!("RN {}", sid(1)),
+                    1 => format!("RA {}", sid(1)),
+                    2 => format!("RNA {}", sid(1)),
+                    3 => format!("REA {}", xid(0, 2, 0xF1)),
+                    _ => format!("HE {}", xid(0, 2, 0xF1)),
+                };
+                it.prog.insert(pos, r);
+            } else if mode == 7 {
+                // write into another instance: every op kind, the targets DECLARED-looking or not — must be refused
+                let op = match rng.below(9) {
+                    0 => format!("UN {ow} {} {}", it.p.n2, sid(0x12)),
+                    1 => format!("DN {ow} {}", it.p.n3),
+                    2 => format!("UE {ow} {} {} {} {}", it.p.e3, it.p.s, it.p.n2, sid(0x30)),
+                    3 => format!("DE {ow} {} {}", it.p.s, it.p.e1),
+                    4 => format!("SA na {ow} {} -", it.p.n2),
+                    5 => format!("SA eb {ow} {} -", it.p.e1),
+                    6 => format!("OP na {ow} {} {} {} E {}", it.p.n3, sid(0xCE), sid(1), sid(0x10)),
+                    7 => format!("UI {ow} {} -", sid(1)),
+                    _ => format!("DI {ow}"),
+                };
+                it.prog.insert(pos, format!("EM {op}"));
+            } else if mode == 8 && !it.system {
+                // instance-level op emitted by a rule (refused unless the rule is a system rule; a system
+                // rule is refused only for what it did not declare)
+                let op = match rng.below(3) {
+                    0 => format!("OP na {w} {} {} {} E {}", it.p.n4, sid(0xCD), sid(1), sid(0x10)),
+                    1 => format!("UI {w} {} -", sid(1)),
+                    _ => format!("DI {w}"),
+                };
+                it.prog.insert(pos, format!("EM {op}"));
+            } else if mode == 8 {
+                it.prog.insert(pos, format!("RNA {}", sid(1)));
+            } else {
+                // undeclared write followed by an executor panic / an undeclared read
+                it.prog.insert(pos, if rng.chance(1, 2) { "PANIC".to_string() } else { format!("RN {}", sid(1)) });
+                if rng.chance(2, 3) {
+                    it.prog.insert(pos, format!("EM UN {w} {} {}", sid(1), sid(0x12)));
+                }
+            }
+        }
+        let mut line = format!("{workers} {state} {k}");
         for it in &items {
             line.push(' ');
             line.push_str(&it.line());
